@@ -489,7 +489,12 @@ func runReplayTest(repo, rel, testSrc, inputPath string) (string, bool) {
 	os.WriteFile(ovPath, ob, 0o644)
 	ctx, cancel := context.WithTimeout(context.Background(), 180*time.Second)
 	defer cancel()
-	cmd := exec.CommandContext(ctx, "go", "test", "-overlay", ovPath, "-vet=off", "-count=1", "-timeout", "60s", "-run", "TestGovcReplay", "./"+rel)
+	args := []string{"test", "-overlay", ovPath, "-vet=off", "-count=1", "-timeout", "60s", "-run", "TestGovcReplay"}
+	if src, err := os.ReadFile(testSrc); err == nil && strings.Contains(string(src), "govc:race") {
+		args = append(args, "-race") // schedule-dependent replays run under the race detector
+	}
+	args = append(args, "./"+rel)
+	cmd := exec.CommandContext(ctx, "go", args...)
 	cmd.Dir = repo
 	cmd.Env = append(os.Environ(), "GOFLAGS=-mod=mod", "GOPROXY=off", "GOSUMDB=off", "GOTOOLCHAIN=local", "GOVC_REPLAY_INPUT="+inputPath)
 	var out bytes.Buffer
